@@ -9,5 +9,6 @@ INVARIANT IdIs32
 INVARIANT ManyEntries
 INVARIANT SigLengthSweep
 INVARIANT PairsAreOpaque
+INVARIANT FieldsInOrder
 INVARIANT EmitCase
 CHECK_DEADLOCK FALSE
